@@ -127,7 +127,8 @@ Section RunId.
     | IBase (OCopy i) => let c := copy (fst (geti w i)) in let '(w', _) := push w c in (w', obs 0 c w')
     | IBase (OHash i) => (w, [if hashable (fst (geti w i)) then 0 else 1])
     | IBase OSnapAll => (w, pids w)
-    | IBase (OToJson _) | IBase (OFromJson _) | IBase (OJsonRT _) | IBase (OEq _ _ _) => (w, [9])
+    | IBase (OToJson _) | IBase (OFromJson _) | IBase (OJsonRT _) | IBase (OEq _ _ _)
+    | IBase (OFillNp _ _) | IBase (OSnapP _) => (w, [9])
     end.
 
   Fixpoint runi_from (w : world) (ops : list iop) : list (list Z) :=
